@@ -266,7 +266,7 @@ func init() {
 				},
 			},
 			{
-				Name: "random", N: q(150000, 5000000),
+				Name: "random", N: q(150000, 25000000),
 				Run: func(c *fw.Case) {
 					t, name := randomText(c.R, 2000)
 					if !utf8.ValidString(t) {
